@@ -73,6 +73,7 @@ ssize_t STUB(read)(int fd, void *dst, size_t n)
 	__CPROVER_assert(fd == v_pump.from_fd, "[C17] data is read from the input descriptor");
 	__CPROVER_assert(CURBUF != NULL && (unsigned char *)dst == CURBUF->u.buf + v_pump.bytes, "[C17] new data is appended right after the buffered bytes (order preserved)");
 	__CPROVER_assert(n == (size_t)(BUF_SIZE - v_pump.bytes) && n > 0, "[C17] at most the free space of the buffer is read, and only when there is some");
+	__CPROVER_assert(__CPROVER_w_ok(dst, n), "[C17,C18] the whole window offered to read() lies inside the buffer block (the block holds its list header and all BUF_SIZE data bytes)");
 	g_reads++;
 	if (g_rd_eintr > 0) { g_rd_eintr--; verif_errno = EINTR; return -1; }
 	g_bytes_at_read = v_pump.bytes;
@@ -87,6 +88,7 @@ ssize_t STUB(write)(int fd, const void *src, size_t n)
 	__CPROVER_assert(fd == v_pump.to_fd, "[C17] data is written to the output descriptor");
 	__CPROVER_assert(CURBUF != NULL && (const unsigned char *)src == CURBUF->u.buf, "[C17] output is taken from the start of the buffer (oldest byte first)");
 	__CPROVER_assert(n == (size_t)v_pump.bytes && n > 0 && n <= BUF_SIZE, "[C17] exactly the buffered bytes are offered");
+	__CPROVER_assert(__CPROVER_r_ok(src, n), "[C17,C18] the bytes offered to write() lie inside the buffer block");
 	g_writes++;
 	if (g_wr_eintr > 0) { g_wr_eintr--; verif_errno = EINTR; return -1; }
 	g_bytes_at_write = v_pump.bytes;
